@@ -83,12 +83,18 @@ func parseMonetary(source string) (Monetary, InterpreterError) {
 	return mon, nil
 }
 
+// same shape as the ACCOUNT token of the grammar (without the leading '@')
+var accountNameRegex = regexp.MustCompile(`^[a-zA-Z0-9_-]+(:[a-zA-Z0-9_-]+)*$`)
+
 func parseVar(type_ string, rawValue string, r parser.Range) (Value, InterpreterError) {
 	switch type_ {
 	// TODO why should the runtime depend on the static analysis module?
 	case analysis.TypeMonetary:
 		return parseMonetary(rawValue)
 	case analysis.TypeAccount:
+		if !accountNameRegex.MatchString(rawValue) {
+			return nil, InvalidAccountName{Name: rawValue}
+		}
 		return AccountAddress(rawValue), nil
 	case analysis.TypePortion:
 		bi, err := ParsePortionSpecific(rawValue)
